@@ -138,7 +138,10 @@ def run_check(pid, cfg, tier, seed, args, t0):
                   and c.target not in cfg['quick_skip_targets']]
         reports, reg = verify_parallel(grp, tg, procs=args.procs, timeout_ms=timeout_ms,
                                        max_paths=cfg.get('max_paths', 6000))
-        all_reports.update(reports)
+        for _t, _rep in reports.items():
+            # the same function verified in a second view (another sidecar group): obligations are named per view
+            _k = _t if _t not in all_reports else '%s#%s' % (_t, os.path.basename(grp[0]).split('.')[0])
+            all_reports[_k] = _rep
     if groups:
         reports = all_reports
         for target, rep in sorted(reports.items()):
@@ -181,12 +184,12 @@ def run_check(pid, cfg, tier, seed, args, t0):
                 obligations.append(ob)
                 if slot['status'] in ('refuted', 'candidate'):
                     failures.append({'obligation': oid, 'kind': 'pyvc', 'status': slot['status'],
-                                     'case': {'target': target, 'clause': clause, 'where': slot.get('where', ''),
+                                     'case': {'target': target.split('#')[0], 'clause': clause, 'where': slot.get('where', ''),
                                               'witness': slot.get('witness', {}), 'model': slot.get('model'),
                                               'path': slot.get('path'), 'segment': slot.get('segment')}})
                 elif slot['status'] == 'undecided':
                     undecided.append({'obligation': oid, 'reason': 'solver: %s' % slot.get('detail'),
-                                      'case': {'target': target, 'clause': clause, 'where': slot.get('where', ''),
+                                      'case': {'target': target.split('#')[0], 'clause': clause, 'where': slot.get('where', ''),
                                                'witness': {}, 'model': None, 'path': slot.get('path'),
                                                'segment': slot.get('segment')}})
     # ---- 2. ground obligations (finite, decided by evaluation under /venv python) ----------
